@@ -146,7 +146,7 @@ def c01(ck):
     if not impl_ok:
         return
     svc = DEFAULT_SVC
-    quick = ck.tier == "quick"
+    quick = ck.quick
     small = ["getinfo", "ok", "stream", "unknown_iface", "nodot", "badparam", "fail", "silent"]
     seqs = gen_sequences(rng, ck.tier, list(kinds().keys()), FLAGS, 1, 0, 0)
     seqs += gen_sequences(rng, ck.tier, CORE_KINDS, FLAGS, 2, 0, 0)
@@ -250,7 +250,7 @@ def c04(ck):
     if not impl_ok:
         return
     svc = DEFAULT_SVC
-    quick = ck.tier == "quick"
+    quick = ck.quick
     ow_flags = {"oneway": ALL_FLAGS["oneway"], "more+oneway": ALL_FLAGS["more+oneway"]}
     lines, meta = [], {}
     # every kind alone with oneway
@@ -384,7 +384,7 @@ def c02(ck):
     model_ok, impl_ok = prep(ck, "C02.v")
     if not impl_ok:
         return
-    quick = ck.tier == "quick"
+    quick = ck.quick
     streams = streams_for_c02(rng, quick)
     lines, meta = [], {}
     n = 0
@@ -520,7 +520,7 @@ def c03(ck):
     model_ok, impl_ok = prep(ck, "C03.v")
     if not impl_ok:
         return
-    quick = ck.tier == "quick"
+    quick = ck.quick
     services = [Service([])]
     for _ in range(8 if quick else 60):
         k = rng.randint(1, 6)
@@ -659,7 +659,7 @@ def c03(ck):
 def c05_server(ck, model_ok):
     rng = random.Random(ck.seed)
     svc = DEFAULT_SVC
-    quick = ck.tier == "quick"
+    quick = ck.quick
     ops = ["c1", "c0", "r", "e"]
     scripts = []
     for L in range(0, 6 if quick else 8):
@@ -799,7 +799,7 @@ def c06(ck):
     model_ok, impl_ok = prep(ck, "C06.v")
     if not impl_ok:
         return
-    quick = ck.tier == "quick"
+    quick = ck.quick
     svc = DEFAULT_SVC
     muts = mutate_streams(rng, quick)
     lines, meta = [], {}
@@ -890,7 +890,7 @@ def c05(ck):
     if not impl_ok:
         return
     ck.rule = ("server: every script over {set_continues(true), set_continues(false), reply, reply_error} up to length %d x flags {none, more, oneway, more=false}; "
-               "non-trivial = non-empty script; distinct by (script, flags)") % (5 if ck.tier == "quick" else 7)
+               "non-trivial = non-empty script; distinct by (script, flags)") % (5 if ck.quick else 7)
     c05_server(ck, model_ok)
     try:
         import check_client
